@@ -264,6 +264,20 @@ func (s *sim) opsAt(density int) {
 				i = n + 1 + rng.Intn(2)
 			}
 			s.add(fmt.Sprintf("witness %d", i))
+		case r < 70:
+			// arbitrary append path / right witness lists (mostly not belonging to any tree)
+			mk := func(k int) [][]byte {
+				l := make([][]byte, k)
+				for i := range l {
+					l[i] = refLeaf([]byte{byte(rng.Intn(4))})
+				}
+				return l
+			}
+			idx := uint64(rng.Intn(64))
+			if rng.Intn(3) == 0 {
+				idx = rng.Uint64() >> uint(rng.Intn(64))
+			}
+			s.add(fmt.Sprintf("rwraw %d %s %s", idx, hexList(mk(rng.Intn(5))), hexList(mk(rng.Intn(5)))))
 		case r < 76:
 			s.add(fmt.Sprintf("specpath %d", rng.Intn(n+1)))
 		case r < 84:
